@@ -83,6 +83,7 @@ type Run struct {
 var (
 	flagTier   = flag.String("tier", "", "quick|thorough")
 	flagReplay = flag.String("replay", "", "replay file")
+	flagFree   = flag.Int("free", 0, "auxiliary race pass: run every scheduler scenario this many times free-running (real goroutines and primitives) instead of exploring it; meant for a -race build")
 	flagShard  = flag.String("shard", "", "i/n (internal)")
 	flagOut    = flag.String("shardout", "", "(internal)")
 )
@@ -144,6 +145,9 @@ func Start(id, level string) *Run {
 	}
 	return r
 }
+
+// Free returns the number of free-running repetitions asked for (0 = normal exploration).
+func (r *Run) Free() int { return *flagFree }
 
 // Quick reports whether this is the quick tier.
 func (r *Run) Quick() bool { return r.Tier == "quick" }
@@ -344,8 +348,8 @@ func (r *Run) IsChild() bool { return r.isChild }
 // and merges what the children found. Returns false in a child (which must then do the work and
 // call Finish). A child that dies (OOM, fatal error, watchdog) is reported as a harness error.
 func (r *Run) Fork(n int, extraEnv ...string) bool {
-	if r.isChild || r.replay != "" {
-		return false // a replay runs the one case in this process
+	if r.isChild || r.replay != "" || *flagFree > 0 {
+		return false // a replay runs the one case in this process; so does the free-running pass
 	}
 	dir := filepath.Join(Root(), ".work", r.ID)
 	os.MkdirAll(dir, 0o755)
@@ -546,6 +550,10 @@ func (r *Run) Finish() {
 	rpdir := filepath.Join(Root(), "replay")
 	if d := os.Getenv("VERIF_EVIDENCE_DIR"); d != "" {
 		evdir, rpdir = d, filepath.Join(d, "replay")
+	}
+	if *flagFree > 0 {
+		evdir = filepath.Join(Root(), ".work", r.ID, "free-evidence")
+		rpdir = filepath.Join(evdir, "replay")
 	}
 	if r.replay != "" {
 		// a replay is not a check run: it must not replace the evidence of one
